@@ -237,6 +237,10 @@ func DecompressToG2(m []byte) (*bn256.G2, error) {
 	y2.add(y2, twistB)
 	y := sqrtGfP2(y2)
 
+	if y == nil {
+		return nil, errors.New("failed to decompress G2")
+	}
+
 	// Compare calculated Y parity with the original Y parity in the top bit of
 	// the compressed point. If it doesn't match, we know `Y1 + Y2 = P`, so we
 	// recover the correct Y using bn256.P.
@@ -272,7 +276,8 @@ func x2y(x, y *gfP2) bool {
 	return y.x.Cmp(x.x) == 0 && y.y.Cmp(x.y) == 0
 }
 
-// sqrtGfP2 returns square root of a gfP2 element.
+// sqrtGfP2 returns square root of a gfP2 element. If the element is not
+// a square, function returns nil.
 func sqrtGfP2(x *gfP2) *gfP2 {
 
 	// (bn256.p^2 + 15) // 32)
@@ -280,11 +285,17 @@ func sqrtGfP2(x *gfP2) *gfP2 {
 
 	y := new(gfP2).pow(x, exp)
 
-	// Multiply y by hexRoot constant to find correct y.
-	for !x2y(x, y) {
+	// Multiply y by hexRoot constant to find correct y. The hexRoot constant
+	// is a root of unity of order 16 so if the square root exists, it is found
+	// in at most 16 steps.
+	for i := 0; i < 16; i++ {
+		if x2y(x, y) {
+			return y
+		}
 		y.multiply(y, hexRoot)
 	}
-	return y
+
+	return nil
 }
 
 // pow returns gfP2 element to the power of the provided exponent.
